@@ -247,7 +247,7 @@ fn run_all(ctx: &mut Ctx) {
             find_all_free_function_ids(&probe_db, ids).map(|v| v.len()).unwrap_or(0)
         };
         drop(probe_db);
-        let nf_tasks = tier.pick(6, 10).min(nfuncs);
+        let nf_tasks = tier.pick(3, 10).min(nfuncs);
         let mut tasks: Vec<Task> = (0..nf_tasks).map(|i| Task::Sierra(i * nfuncs / nf_tasks.max(1))).collect();
         tasks.push(Task::ModuleFirst(0));
         tasks.push(Task::ModuleFirst(1));
